@@ -6,7 +6,8 @@
 //
 // Rewrites: import "sync" -> vsync, "sync/atomic" -> vatomic (alias imports, so
 // all selectors keep their spelling); time.{Now,Sleep,Since,Until} -> vtime.*;
-// syscall.{Socket,Bind,Getsockname,Sendto,Recvfrom,Close} -> vsys.*.
+// syscall.{Socket,Bind,Getsockname,Sendto,Recvfrom,Close} -> vsys.*;
+// os/user.{Lookup,LookupId,LookupGroup,LookupGroupId} -> vuser.* (account database seam).
 package main
 
 import (
@@ -29,6 +30,7 @@ const modPath = "github.com/elastic/go-libaudit/v2"
 
 var timeFuncs = map[string]bool{"Now": true, "Sleep": true, "Since": true, "Until": true}
 var sysFuncs = map[string]bool{"Socket": true, "Bind": true, "Getsockname": true, "Sendto": true, "Recvfrom": true, "Close": true}
+var userFuncs = map[string]bool{"Lookup": true, "LookupId": true, "LookupGroup": true, "LookupGroupId": true}
 
 type stats struct {
 	Files        int            `json:"files"`
@@ -151,7 +153,7 @@ func rewrite(src, dst string, st *stats, withSync bool) (bool, error) {
 		return false, err
 	}
 	changed := false
-	timeName, sysName := "", ""
+	timeName, sysName, userName := "", "", ""
 	for _, imp := range f.Imports {
 		path, _ := strconv.Unquote(imp.Path.Value)
 		if !withSync && (path == "sync" || path == "sync/atomic") {
@@ -182,9 +184,14 @@ func rewrite(src, dst string, st *stats, withSync bool) (bool, error) {
 			if imp.Name != nil {
 				sysName = imp.Name.Name
 			}
+		case "os/user":
+			userName = "user"
+			if imp.Name != nil {
+				userName = imp.Name.Name
+			}
 		}
 	}
-	useVtime, useVsys := false, false
+	useVtime, useVsys, useVuser := false, false, false
 	ast.Inspect(f, func(n ast.Node) bool {
 		sel, ok := n.(*ast.SelectorExpr)
 		if !ok {
@@ -204,6 +211,11 @@ func rewrite(src, dst string, st *stats, withSync bool) (bool, error) {
 			useVsys = true
 			st.Rewrites["syscall."+sel.Sel.Name]++
 		}
+		if userName != "" && id.Name == userName && userFuncs[sel.Sel.Name] {
+			id.Name = "vuser__"
+			useVuser = true
+			st.Rewrites["user."+sel.Sel.Name]++
+		}
 		return true
 	})
 	if useVtime {
@@ -212,6 +224,10 @@ func rewrite(src, dst string, st *stats, withSync bool) (bool, error) {
 	}
 	if useVsys {
 		addImport(f, "vsys__", modPath+"/vshim/vsys")
+		changed = true
+	}
+	if useVuser {
+		addImport(f, "vuser__", modPath+"/vshim/vuser")
 		changed = true
 	}
 	if !changed {
@@ -223,6 +239,9 @@ func rewrite(src, dst string, st *stats, withSync bool) (bool, error) {
 	}
 	if useVsys && !usesPkg(f, sysName) {
 		dropImport(f, "syscall")
+	}
+	if useVuser && !usesPkg(f, userName) {
+		dropImport(f, "os/user")
 	}
 	var buf bytes.Buffer
 	if err := printer.Fprint(&buf, fset, f); err != nil {
